@@ -39,8 +39,12 @@ type Ctx struct {
 
 // NewCtx creates a context.
 func NewCtx(p *Program, property, tier string) *Ctx {
-	return &Ctx{Prog: p, Property: property, Tier: tier, Analysed: map[string][]string{},
+	c := &Ctx{Prog: p, Property: property, Tier: tier, Analysed: map[string][]string{},
 		RuleText: map[string]string{}, Level: "other", Extra: map[string]interface{}{}}
+	for _, n := range p.RenameNotes {
+		c.Note("%s", n)
+	}
+	return c
 }
 
 // Rule registers the text of a rule (shown in the evidence).
